@@ -1,4 +1,7 @@
 import LoguruModel.Datetime.Spec
+import LoguruModel.Datetime.RenderLemmas
+import LoguruModel.Datetime.CacheLemmas
+import LoguruModel.Datetime.UtcLemmas
 /-
 C11 – property theorems (only the theorems and their non-vacuity examples live here).
 Every statement is about the *generated* kernels `Datetime.Gen.k_*` / `Datetime.Gen.table`,
@@ -220,11 +223,212 @@ theorem default_fast_path_eq_generic (dt : Dt) :
   simp only [beq_self_eq_true, if_true]
   rfl
 
+/-! ### Round 5: the two-phase implementation renders piece by piece; the `!UTC` suffix -/
+
+theorem scan_pieces_clean (spec : Str) (h : '%' ∉ spec) : ∀ p ∈ scan spec, pieceClean p := by
+  intro p hp
+  have hsub : ∀ c ∈ Piece.src p, c ∈ spec := by
+    intro c hc
+    have : c ∈ (scan spec).flatMap Piece.src := List.mem_flatMap.mpr ⟨p, hp, hc⟩
+    rwa [scan_lossless] at this
+  cases p with
+  | text s => exact fun hm => h (hsub _ hm)
+  | tok s => exact fun hm => h (hsub _ hm)
+
+/-- the generic path (`_compile_format` builds a `%`-format string, `_loguru_datetime_formatter` applies it to the
+kernel values) renders, for EVERY spec it accepts, exactly the concatenation of the pieces' own renderings
+(`Spec.renderBody`: text verbatim, table tokens through their padding, bracket escapes without their brackets)
+at the instant's own fields – and never fails. -/
+theorem format_generic (spec : Str) (dt : Dt) (h0 : spec ≠ fastPathSpec)
+    (h1 : endsWith spec utcSuffix = false) (h2 : '%' ∉ spec) (h3 : spec ≠ [])
+    (h4 : isInfix tooManyS spec = false) :
+    formatDt spec dt = .ok (.text (renderBody spec dt)) := by
+  unfold formatDt
+  simp only [h0, h1, h2, h3, h4, beq_iff_eq, if_false, List.isEmpty_iff, List.contains_iff_mem,
+    Bool.false_eq_true]
+  rw [build_render _ (scan_pieces_clean spec h2)]
+  rfl
+
+theorem endsWith_append_self (b suf : Str) : endsWith (b ++ suf) suf = true := by
+  unfold endsWith
+  rw [List.isSuffixOf_iff_suffix]
+  exact List.suffix_append b suf
+
+theorem cut_utc_suffix (b : Str) : (b ++ utcSuffix).take ((b ++ utcSuffix).length - 4) = b := by
+  have : utcSuffix.length = 4 := by decide
+  simp [this]
+
+theorem suffixed_ne_fast (b : Str) : b ++ utcSuffix ≠ fastPathSpec := by
+  intro h
+  have h1 := endsWith_append_self b utcSuffix
+  rw [h] at h1
+  revert h1; decide
+
+/-- `!UTC`: exactly the four characters of the suffix are removed (whatever text precedes them is kept and rendered
+verbatim by `format_generic`'s reading), and the body is rendered at the fields of `toUtc dt` – the same instant at
+offset 0 (`toUtc_same_instant`) – instead of the instant's own fields. -/
+theorem format_utc_suffix (body : Str) (dt : Dt) (h2 : '%' ∉ body) (h3 : body ≠ [])
+    (h4 : isInfix tooManyS body = false) :
+    formatDt (body ++ utcSuffix) dt = .ok (.text (renderBody body (toUtc dt))) := by
+  unfold formatDt
+  simp only [suffixed_ne_fast, endsWith_append_self, cut_utc_suffix, h2, h3, h4, beq_iff_eq, if_false, if_true,
+    List.isEmpty_iff, List.contains_iff_mem, Bool.false_eq_true]
+  rw [build_render _ (scan_pieces_clean body h2)]
+  rfl
+
+/-- a `%` body with the suffix: delegated to strftime on the UTC-converted instant, the body unchanged -/
+theorem percent_delegates_utc (body : Str) (dt : Dt) (h2 : '%' ∈ body) :
+    formatDt (body ++ utcSuffix) dt = .ok (.strftime true body) := by
+  unfold formatDt
+  have h3 : body ≠ [] := by intro h; subst h; simp at h2
+  simp only [suffixed_ne_fast, endsWith_append_self, cut_utc_suffix, h2, h3, beq_iff_eq, if_false, if_true,
+    List.isEmpty_iff, List.contains_iff_mem]
+
+/-- the suffix changes nothing but the instant's representation: formatting `body!UTC` at `dt` is formatting `body`
+at `toUtc dt` – for every body that is itself a plain spec (the default format included, through
+`default_fast_path_eq_generic`). -/
+theorem utc_suffix_converts (body : Str) (dt : Dt) (h1 : endsWith body utcSuffix = false)
+    (h2 : '%' ∉ body) (h3 : body ≠ []) (h4 : isInfix tooManyS body = false) :
+    formatDt (body ++ utcSuffix) dt = formatDt body (toUtc dt) := by
+  rw [format_utc_suffix body dt h2 h3 h4]
+  by_cases h0 : body = fastPathSpec
+  · subst h0
+    rw [default_fast_path_eq_generic, build_render _ (scan_pieces_clean _ h2)]
+    rfl
+  · rw [format_generic body (toUtc dt) h0 h1 h2 h3 h4]
+
+/-! ### Round 5: `_format_timezone` / `_timestamp_microseconds` as the source has them NOW -/
+
+/-- the hand-written `formatTimezone` the token kernels `Z`, `ZZ` and the default format call IS the function
+regenerated from the statements of `_format_timezone` (sign test, `divmod(abs(offset // 60), 60)`,
+`abs(offset) % 60`, the `s > 0` / `is_integer()` branches, the three format strings) -/
+theorem formatTimezone_is_generated (dt : Dt) (sep : Str) :
+    formatTimezone dt sep = formatTimezoneGen dt.offsetUs sep := by
+  unfold formatTimezone formatTimezoneGen
+  simp only [beq_iff_eq]
+  repeat' split
+  all_goals first
+    | rfl
+    | (simp only [List.append_assoc]; done)
+    | (exfalso; omega)
+
+/-- `_timestamp_microseconds` is `(dt - epoch) // timedelta(microseconds=1)` with the epoch literal and the unit of
+the source (regenerated): exact integer microseconds, no float anywhere -/
+theorem timestamp_is_generated (dt : Dt) : timestampMicroseconds dt = timestampGen dt := by
+  have h : localMicros epochDt - epochDt.offsetUs = 0 := by decide
+  have u : timestampUnitUs = 1 := by decide
+  unfold timestampGen timestampMicroseconds
+  rw [h, u]; omega
+
+/-- COMPLETE characterisation of `Z`/`ZZ` (the documented region of F1): for every offset the rendering is the exact
+split of an offset – of the instant's own offset when it is non-negative or a whole number of minutes, and of the
+offset minus one minute otherwise (negative with a seconds part: exactly one minute too far from zero) -/
+theorem token_Z_total (dt : Dt) (sep : Str) :
+    formatTimezone dt sep =
+      tzSpec (if 0 ≤ dt.offsetUs ∨ dt.offsetUs % 60000000 = 0 then dt.offsetUs else dt.offsetUs - 60000000) sep := by
+  split
+  · rename_i h; exact token_Z_partial dt sep h
+  · rename_i h
+    unfold formatTimezone tzSpec
+    have e1 : ((dt.offsetUs / 60000000).natAbs : Int) / 60 = ((dt.offsetUs - 60000000).natAbs : Int) / 3600000000 := by omega
+    have e2 : ((dt.offsetUs / 60000000).natAbs : Int) % 60 = ((dt.offsetUs - 60000000).natAbs : Int) / 60000000 % 60 := by omega
+    have e3 : (dt.offsetUs.natAbs : Int) % 60000000 = ((dt.offsetUs - 60000000).natAbs : Int) % 60000000 := by omega
+    have e4 : (dt.offsetUs ≥ 0) = False := by simp; omega
+    have e5 : (dt.offsetUs - 60000000 ≥ 0) = False := by simp; omega
+    simp only [e1, e2, e3, e4, e5]
+
+/-- … and the same for what the token table calls (through the regenerated function) -/
+theorem token_Z_generated (t : Tm) (dt : Dt) (h : 0 ≤ dt.offsetUs ∨ dt.offsetUs % 60000000 = 0) :
+    formatTimezoneGen dt.offsetUs [':'] = tzSpec dt.offsetUs [':'] ∧ k_Z t dt = tzSpec dt.offsetUs [':'] ∧
+    k_ZZ t dt = tzSpec dt.offsetUs [] := by
+  refine ⟨?_, ?_, ?_⟩
+  · rw [← formatTimezone_is_generated, token_Z_partial dt _ h]
+  · rw [(token_Z_is_formatTimezone t dt).1, token_Z_partial dt _ h]
+  · rw [(token_Z_is_formatTimezone t dt).2, token_Z_partial dt _ h]
+
+/-! ### Round 5: state that survives from one call to the next -/
+
+/-- what the source says about cross-call state (all regenerated): the memoiser of `_compile_format` is keyed by the
+whole spec `__format__` received; no function reachable from `__format__` writes a global, an attribute, an item, or
+mutates anything it did not create itself; `_loguru_datetime_formatter` converts to UTC before it reads any field and
+passes the kernels' values in formatter order -/
+theorem source_keeps_no_other_state :
+    cacheKeyIsWholeSpec = true ∧ formatStateWrites = [] ∧ utcConversionFirst = true ∧
+    argsInFormatterOrder = true := by decide
+
+theorem sourceKey_injective : ∀ a b, sourceKey a = sourceKey b → a = b := by
+  have h : sourceKey = id := by unfold sourceKey; rw [source_keeps_no_other_state.1]; rfl
+  intro a b hab; rw [h] at hab; exact hab
+
+/-- the two stages of the code (`_compile_format(spec)`, cached; then the compiled formatter applied to the instant)
+compose to the one-call model every other theorem speaks about -/
+theorem compile_then_run_is_formatDt (spec : Str) (dt : Dt) :
+    (compileFormat spec >>= fun f => runCompiled f dt) = formatDt spec dt := compile_then_run spec dt
+
+/-- HISTORY theorem: through the source's memoiser – whatever its replacement policy drops or reorders, LRU of any
+size included – EVERY call of EVERY history of `format` calls renders exactly `formatDt` of its own spec and its own
+instant: nothing of an earlier call (another spec, another instant, another zone) shows in a later one. -/
+theorem history_renderings_independent (policy : Str → Cache → Cache)
+    (hpol : ∀ k c e, e ∈ policy k c → e ∈ c) (calls : List (Str × Dt)) :
+    runHistory sourceKey policy [] calls = calls.map (fun x => formatDt x.1 x.2) :=
+  runHistory_correct sourceKey sourceKey_injective policy hpol calls [] (by intro e he; cases he)
+
+/-- instance: `functools.lru_cache(maxsize=…)` with the maxsize of the source -/
+theorem history_lru (calls : List (Str × Dt)) :
+    runHistory sourceKey (lruPolicy cacheMaxsize) [] calls = calls.map (fun x => formatDt x.1 x.2) :=
+  history_renderings_independent _ (fun k c e h => lruPolicy_subset cacheMaxsize k c e h) calls
+
+/-- why the key matters: a memoiser keyed by anything less than the whole spec (here: the spec without its `!UTC`
+suffix) renders the second call of this two-call history in the zone of the FIRST call's spec -/
+theorem noninjective_key_leaks :
+    let dt : Dt := { year := 2024, month := 2, day := 29, hour := 1, minute := 30, second := 5, microsecond := 7,
+                     offsetUs := 7200000000, tzname := ['X'] }
+    let key : Str → Str := fun s => if endsWith s utcSuffix then s.take (s.length - 4) else s
+    runHistory key (fun _ c => c) [] [("HH".toList, dt), ("HH!UTC".toList, dt)]
+      = [.ok (.text "01".toList), .ok (.text "01".toList)] ∧
+    formatDt "HH!UTC".toList dt = .ok (.text "23".toList) := by
+  constructor <;> rfl
+
 /-- non-vacuity: a concrete instant and spec exercising tokens, escapes and the UTC suffix -/
 example :
     formatDt "YYYY-MM-DD hh:mm A [YY] [at] Q ZZ!UTC".toList
       { year := 2024, month := 2, day := 29, hour := 1, minute := 30, second := 5, microsecond := 7,
         offsetUs := 7200000000, tzname := ['X'] } = .ok (.text "2024-02-28 11:30 PM YY [at] 1 +0000".toList) := by
   rfl
+
+/-- non-vacuity of `format_generic` / `format_utc_suffix` / `utc_suffix_converts`: a spec meeting their hypotheses, with
+literal text (brackets around a non-token stay), an escaped token and text that merely looks like the suffix in the middle; its piecewise rendering computed -/
+example :
+    let dt : Dt := { year := 2024, month := 2, day := 29, hour := 1, minute := 30, second := 5, microsecond := 7,
+                     offsetUs := 7200000000, tzname := ['X'] }
+    let body := "D!UTC, [at] [hh] hh é".toList
+    body ≠ fastPathSpec ∧ endsWith body utcSuffix = false ∧ '%' ∉ body ∧ body ≠ [] ∧ isInfix tooManyS body = false ∧
+    renderBody body dt = "29!UTC, [at] hh 01 é".toList ∧ renderBody body (toUtc dt) = "28!UTC, [at] hh 11 é".toList ∧
+    formatDt (body ++ utcSuffix) dt = .ok (.text "28!UTC, [at] hh 11 é".toList) := by
+  refine ⟨by decide, by decide, by decide, by decide, by decide, by rfl, by rfl, by rfl⟩
+
+/-- non-vacuity of `toUtc_same_instant`: the day changes, the instant does not -/
+example :
+    let dt : Dt := { year := 2024, month := 3, day := 1, hour := 1, minute := 30, second := 5, microsecond := 7,
+                     offsetUs := 7200000000, tzname := ['X'] }
+    (toUtc dt).day = 29 ∧ (toUtc dt).month = 2 ∧ (toUtc dt).hour = 23 ∧
+    timestampMicroseconds (toUtc dt) = timestampMicroseconds dt := by decide
+
+/-- non-vacuity of `token_Z_total`: both regions are inhabited -/
+example :
+    (0 ≤ (3661000000 : Int) ∨ (3661000000 : Int) % 60000000 = 0) ∧
+    ¬ (0 ≤ (-3661000000 : Int) ∨ (-3661000000 : Int) % 60000000 = 0) ∧
+    tzSpec (-3661000000 - 60000000) [':'] = "-01:02:01".toList := by decide
+
+/-- non-vacuity of `history_lru`: a history with a repeated spec, an erroring spec and a delegated one, on a tiny LRU
+(size 1, so every second call evicts) -/
+example :
+    let d1 : Dt := { year := 2024, month := 2, day := 29, hour := 1, minute := 30, second := 5, microsecond := 7,
+                     offsetUs := 7200000000, tzname := ['X'] }
+    let d2 : Dt := { d1 with hour := 13, offsetUs := -3600000000 }
+    runHistory id (lruPolicy (some 1)) [] [("H Z".toList, d1), ("H Z".toList, d2), ("SSSSSSS".toList, d1),
+        ("H Z!UTC".toList, d2), ("H Z".toList, d1), ("%H".toList, d1)]
+      = [.ok (.text "1 +02:00".toList), .ok (.text "13 -01:00".toList), .error .valueError,
+         .ok (.text "14 +00:00".toList), .ok (.text "1 +02:00".toList), .ok (.strftime false "%H".toList)] := by rfl
 
 end C11
